@@ -74,6 +74,7 @@ type Enc struct {
 	contractsUsed map[string]bool
 	initFactsDone map[string]bool
 	initUnit      bool
+	preserved     []modTarget // state preserved across unbounded-frame calls (kind loc or elems)
 	revealed      map[string]bool
 	revealDone    map[string]bool
 	failed        error
@@ -87,16 +88,22 @@ type deferred struct {
 }
 
 type State struct {
-	reach  Val
-	cells  map[*ssa.Alloc]Val
-	heaps  map[string]Val
-	next   Val
-	defers []deferred
-	iters  map[ssa.Value]Val // visited sets of map iterators
+	reach   Val
+	cells   map[*ssa.Alloc]Val
+	heaps   map[string]Val
+	next    Val
+	defers  []deferred
+	iters   map[ssa.Value]Val // visited sets of map iterators
+	lazy    map[string]bool   // heaps modified by an enclosing loop but not materialised at its head
+	lazyAll bool
 }
 
 func (s *State) clone() *State {
-	n := &State{reach: s.reach, next: s.next, cells: map[*ssa.Alloc]Val{}, heaps: map[string]Val{}, iters: map[ssa.Value]Val{}}
+	n := &State{reach: s.reach, next: s.next, cells: map[*ssa.Alloc]Val{}, heaps: map[string]Val{}, iters: map[ssa.Value]Val{}, lazy: map[string]bool{}}
+	for k := range s.lazy {
+		n.lazy[k] = true
+	}
+	n.lazyAll = s.lazyAll
 	for k, v := range s.cells {
 		n.cells[k] = v
 	}
@@ -193,6 +200,15 @@ func (e *Enc) heap(st *State, name string, s Sort) Val {
 	if h, ok := st.heaps[name]; ok {
 		return h
 	}
+	if st.lazy[name] || (st.lazyAll && !strings.HasPrefix(name, "G_held") && !strings.HasPrefix(name, "G_rheld")) {
+		// first use inside a loop that modifies this heap: arbitrary value at the loop head
+		if _, ok := e.base[name]; !ok {
+			e.base[name] = e.declare(name+"_0", s)
+		}
+		h := e.fresh(name+"_lz", s)
+		st.heaps[name] = h
+		return h
+	}
 	if h, ok := e.base[name]; ok {
 		return h
 	}
@@ -236,26 +252,106 @@ func (e *Enc) check(st *State, kind, label string, cond Val, pos token.Pos) {
 	e.assume(st, cond)
 }
 
-// Query renders the SMT-LIB text of an obligation.
+// Query renders the SMT-LIB text of an obligation. Facts are sliced to the cone of
+// influence of the goal: a fact is kept if it shares an uninterpreted constant with the goal
+// or (transitively) with a kept fact. Dropping facts only weakens the hypotheses, so an
+// `unsat` answer for the sliced query is an `unsat` answer for the full one.
 func (o *Oblig) Query(timeoutMs int) string {
 	e := o.Enc
 	var b strings.Builder
 	b.WriteString("(set-option :produce-models true)\n(set-logic ALL)\n")
 	b.WriteString(e.P.W.Preamble())
+	var goal string
+	if o.IsCover {
+		goal = And(o.Reach, o.Cond).T
+	} else {
+		goal = And(o.Reach, Not(o.Cond)).T
+	}
+	facts := e.facts[:o.NFacts]
+	keep := make([]bool, len(facts))
+	if noSlice || o.IsCover {
+		for i := range keep {
+			keep[i] = true
+		}
+	} else {
+		declared := map[string]bool{}
+		for _, d := range e.decls[:o.NDecls] {
+			// (declare-const name sort)
+			f := strings.Fields(d)
+			if len(f) >= 2 {
+				declared[f[1]] = true
+			}
+		}
+		syms := func(s string) []string {
+			var out []string
+			i := 0
+			for i < len(s) {
+				c := s[i]
+				if c == '_' || (c >= 'a' && c <= 'z') || (c >= 'A' && c <= 'Z') {
+					j := i
+					for j < len(s) && (s[j] == '_' || s[j] == '!' || s[j] == '.' || s[j] == '$' || (s[j] >= 'a' && s[j] <= 'z') || (s[j] >= 'A' && s[j] <= 'Z') || (s[j] >= '0' && s[j] <= '9')) {
+						j++
+					}
+					if declared[s[i:j]] {
+						out = append(out, s[i:j])
+					}
+					i = j
+					continue
+				}
+				i++
+			}
+			return out
+		}
+		factSyms := make([][]string, len(facts))
+		bySym := map[string][]int{}
+		for i, f := range facts {
+			factSyms[i] = syms(f)
+			for _, s := range factSyms[i] {
+				bySym[s] = append(bySym[s], i)
+			}
+			if len(factSyms[i]) == 0 {
+				keep[i] = true // ground axioms
+			}
+		}
+		reached := map[string]bool{}
+		var work []string
+		for _, s := range syms(goal) {
+			if !reached[s] {
+				reached[s] = true
+				work = append(work, s)
+			}
+		}
+		for len(work) > 0 {
+			s := work[len(work)-1]
+			work = work[:len(work)-1]
+			for _, i := range bySym[s] {
+				if keep[i] {
+					continue
+				}
+				keep[i] = true
+				for _, t := range factSyms[i] {
+					if !reached[t] {
+						reached[t] = true
+						work = append(work, t)
+					}
+				}
+			}
+		}
+	}
 	for _, d := range e.decls[:o.NDecls] {
 		b.WriteString(d + "\n")
 	}
-	for _, f := range e.facts[:o.NFacts] {
-		b.WriteString("(assert " + f + ")\n")
+	for i, f := range facts {
+		if keep[i] {
+			b.WriteString("(assert " + f + ")\n")
+		}
 	}
-	if o.IsCover {
-		b.WriteString("(assert " + And(o.Reach, o.Cond).T + ")\n")
-	} else {
-		b.WriteString("(assert " + And(o.Reach, Not(o.Cond)).T + ")\n")
-	}
+	b.WriteString("(assert " + goal + ")\n")
 	b.WriteString("(check-sat)\n")
 	return b.String()
 }
+
+var noSlice = false
 
 // queryAllDecls is Query with every declaration of the unit and the definitional facts
 // added from index factsFrom on (used for model extraction, where entry-heap constants
@@ -629,7 +725,15 @@ func (e *Enc) merge(edges []edgeState, label string) *State {
 	}
 	r := e.fresh("r_"+label, SBool)
 	e.fact(Eq(r, Or(conds...)))
-	out := &State{reach: r, cells: map[*ssa.Alloc]Val{}, heaps: map[string]Val{}, iters: map[ssa.Value]Val{}}
+	out := &State{reach: r, cells: map[*ssa.Alloc]Val{}, heaps: map[string]Val{}, iters: map[ssa.Value]Val{}, lazy: map[string]bool{}}
+	for _, ed := range edges {
+		for k := range ed.st.lazy {
+			out.lazy[k] = true
+		}
+		if ed.st.lazyAll {
+			out.lazyAll = true
+		}
+	}
 	mergeVals := func(prefix string, vals []Val) Val {
 		same := true
 		for _, v := range vals[1:] {
@@ -695,7 +799,11 @@ func (e *Enc) merge(edges []edgeState, label string) *State {
 		for _, ed := range edges {
 			v, ok := ed.st.heaps[k]
 			if !ok {
-				v = e.base[k]
+				if ed.st.lazy[k] || ed.st.lazyAll {
+					v = e.fresh(k+"_lz", e.base[k].S)
+				} else {
+					v = e.base[k]
+				}
 			}
 			vals = append(vals, v)
 		}
